@@ -12,7 +12,7 @@ META = {
              "in one cell / shape / common, and with non-indexes. Non-trivial: a value tie occurred or the most "
              "frequent value changed during the history; distinct by hash of the operation log"),
     "require": {t: ["mf:checked", "mf:tie", "eq:comparisons", "op:append", "op:filtered", "op:collapsed",
-                    "op:shift_common", "op:from_array"] for t in ("quick", "thorough")},
+                    "op:shift_common", "op:from_array", "from_array:options_reused"] for t in ("quick", "thorough")},
     "assumptions": ["objects that are not well-formed (C07's business) or whose dense content left the model (C06's) "
                     "end their history and are counted, not judged here"],
 }
